@@ -67,7 +67,8 @@ def case_st(draw, allow_fbmc=False):
         # the drivers' own default entry names, with user-tuned weights
         scn["names"] = list(draw(st.permutations(["default_displacement_move", "default_cell_move", "default_exchange_move", "zeta"])))
     scn.pop("alias_of", None)
-    return {"scn": scn, "n": draw(st.integers(4, 9))}
+    # accessible volume re-tuned by the user (grand canonical only): a fraction of the cell volume
+    return {"scn": scn, "n": draw(st.integers(4, 9)), "vacc": draw(st.sampled_from([None, 0.3, 2.5]))}
 
 
 def record(mc, atoms):
@@ -114,6 +115,9 @@ def run_case(case):
             with warnings.catch_warnings():
                 warnings.simplefilter("ignore")
                 mc, atoms, _ = M.build_simulation(scn, criteria="real", extra_kw={"restart_file": path})
+                if case.get("vacc") and scn["ensemble"] == "GrandCanonical":
+                    mc.accessible_volume = float(case["vacc"]) * float(atoms.get_volume())
+                    labels.append("accessible-volume-set")
 
                 class Copy(Observer):
                     def __call__(self):
